@@ -81,6 +81,8 @@ TraceThreshold ==
              <<"C02.monotone", ~ok \/ (mono("lin") /\ mono("lo") /\ mono("hi"))>>,
              <<"C02.alias_identical", e.exc # "" \/ e.alias_same>>,
              <<"C02.scalar_matches_vector", e.exc # "" \/ e.scalar_same>>,
+             (* a query does not write into the caller's target array                          *)
+             <<"C02.targets_untouched", e.exc # "" \/ ~("targets_untouched" \in DOMAIN e) \/ e.targets_untouched>>,
              (* conformance with the as-coded model: drift, not a verdict       *)
              <<"DRIFT.threshold_model", ~ok \/ \A i \in 1..n :
                   /\ \E w \in CodedSet(o, m, e.r[i], "linear") : REq(lin(i), w)
